@@ -389,5 +389,5 @@ def bounds(tier):
 LEVEL_TEXT = ("bounded symbolic model checking of all eleven QC test functions: on every path of the real source z3 shows no "
               "exception is reachable for admissible inputs, the result has one unmasked valid flag per element, no store reaches a "
               "caller-owned buffer, the result does not depend on uninitialised memory and a repeated call yields the same terms")
-LEVEL_NOTE = "bounds: n<=3/5, grid G; environment model validated per path; purity observed on the model's buffers (owner tags) and by snapshots"
+LEVEL_NOTE = "bounds: n<=3/6, grid G; environment model validated per path; purity observed on the model's buffers (owner tags) and by snapshots"
 TECHNIQUE = "symbolic execution of the real Python source over a modelled numpy/pandas + z3 (SMT)"
